@@ -550,3 +550,173 @@ Proof.
   rewrite (NoDup_count_occ Z.eq_dec) in Hnd. specialize (Hnd x).
   unfold ns_cm in H. cbn [ns_init ns_dq map count_occ] in H. lia.
 Qed.
+
+(* ---------------------------------------------------------------- exact shape of a release *)
+(* [ns_rel s s' base txs]: the messages [txs] left the head of the delay queue in order, the
+   CONs among them joined the send queue (whose other entries are [base]) *)
+Definition ns_rel (s s' : ns_st) (base : list ns_node) (txs : list ns_msg) : Prop :=
+  ns_open s' = ns_open s /\
+  map ns_nmsg (ns_dq s) = txs ++ map ns_nmsg (ns_dq s') /\
+  map ns_nmsg (ns_sq s') = map ns_nmsg base ++ filter ns_con txs.
+
+Lemma ns_connected_char c s k : ns_wf c -> ns_pre c s k ->
+  exists txs, snd (ns_connected c s) = map NsTx txs /\
+              ns_rel s (fst (ns_connected c s)) (ns_sq s) txs.
+Proof.
+  intros Hwf (Ho & Ha & Hl & Hc & Hd). unfold ns_connected.
+  destruct (ns_drain c (ns_act s) (ns_dq s)) as [[[a r] snt] o] eqn:E. ns_simp.
+  assert (Hr : 0 <= ns_act s <= ns_nstart c) by lia.
+  destruct (ns_drain_spec c Hwf _ _ _ _ _ _ Hr Hd E) as (_ & _ & _ & _ & _ & A6 & A7 & A8).
+  exists (ns_txs o). unfold ns_rel. ns_simp. rewrite map_app, A8.
+  repeat split; try assumption; reflexivity.
+Qed.
+
+Lemma ns_dec_drain_char c s k : ns_wf c -> ns_pre c s (S k) -> ns_est s = true ->
+  exists txs, snd (ns_dec_drain c s) = map NsTx txs /\
+              ns_rel s (fst (ns_dec_drain c s)) (ns_sq s) txs.
+Proof.
+  intros Hwf (Ho & Ha & Hl & Hc & Hd) He. unfold ns_dec_drain.
+  destruct (ns_act s =? 0) eqn:E0; [lia|]. ns_simp. rewrite He.
+  assert (Hp : ns_pre c (ns_set_act s (ns_act s - 1)) k).
+  { unfold ns_pre. ns_simp. repeat split; try assumption; lia. }
+  destruct (ns_connected_char c _ k Hwf Hp) as (txs & A1 & A2).
+  exists txs. split; [exact A1|]. unfold ns_rel in *. ns_simp. exact A2.
+Qed.
+
+Lemma ns_rel_trans s s1 s2 base t1 t2 :
+  ns_rel s s1 base t1 -> ns_rel s1 s2 (ns_sq s1) t2 -> ns_rel s s2 base (t1 ++ t2).
+Proof.
+  intros (A1 & A2 & A3) (B1 & B2 & B3). unfold ns_rel.
+  rewrite B1, A1, A2, B2, B3, A3, filter_app, <- !app_assoc. repeat split.
+Qed.
+
+Lemma ns_dec_n_char c k : ns_wf c -> forall s, ns_post c s k ->
+  exists txs, snd (ns_dec_n c k s) = map NsTx txs /\
+              ns_rel s (fst (ns_dec_n c k s)) (ns_sq s) txs.
+Proof.
+  intros Hwf. induction k as [|k IH]; intros s H.
+  - exists []. split; [reflexivity|]. unfold ns_rel. cbn. rewrite app_nil_r. repeat split.
+  - cbn [ns_dec_n]. destruct H as (Hp & He & _).
+    pose proof (ns_dec_drain_pre c s k Hwf Hp He) as H1.
+    destruct (ns_dec_drain_char c s k Hwf Hp He) as (t1 & A1 & A2).
+    destruct (ns_dec_drain c s) as [s1 o1]. ns_simp.
+    destruct (IH s1 H1) as (t2 & B1 & B2). destruct (ns_dec_n c k s1) as [s2 o2]. ns_simp.
+    exists (t1 ++ t2). rewrite A1, B1, map_app. split; [reflexivity|].
+    eapply ns_rel_trans; eassumption.
+Qed.
+
+(* removal of one node, slot released, queue flushed: ACK, RST, give-up *)
+Lemma ns_remove_dec_char c s mid n q : ns_wf c -> ns_inv c s -> ns_open s = true ->
+  ns_remove mid (ns_sq s) = Some (n, q) ->
+  exists txs, snd (ns_dec_drain c (ns_set_sq s q)) = map NsTx txs /\
+              ns_rel s (fst (ns_dec_drain c (ns_set_sq s q))) q txs.
+Proof.
+  intros Hwf Hi Ho Hr. destruct (ns_remove_some _ _ _ _ Hr) as (L & _ & Hin & HP & _).
+  assert (Hp : ns_pre c (ns_set_sq s q) 1).
+  { destruct Hi. unfold ns_pre. ns_simp. repeat split; try assumption; try lia.
+    apply (HP ns_ncon iv_con0). }
+  assert (He : ns_est (ns_set_sq s q) = true).
+  { ns_simp. apply (iv_est _ _ Hi). intro E. rewrite E in Hin. exact Hin. }
+  destruct (ns_dec_drain_char c _ 0 Hwf Hp He) as (txs & A1 & A2).
+  exists txs. split; [exact A1|]. unfold ns_rel in *. ns_simp. exact A2.
+Qed.
+
+Lemma ns_remove_dec_est c s mid n q : ns_wf c -> ns_inv c s -> ns_open s = true ->
+  ns_remove mid (ns_sq s) = Some (n, q) ->
+  ns_est (fst (ns_dec_drain c (ns_set_sq s q))) = true /\ ns_est s = true /\ ns_ncon n = true.
+Proof.
+  intros Hwf Hi Ho Hr. destruct (ns_remove_some _ _ _ _ Hr) as (L & _ & Hin & HP & _).
+  destruct (HP ns_ncon (iv_con _ _ Hi)) as [Hn' Hq].
+  assert (He : ns_est s = true).
+  { apply (iv_est _ _ Hi). intro E. rewrite E in Hin. exact Hin. }
+  split; [|split; assumption].
+  assert (Hp : ns_pre c (ns_set_sq s q) 1).
+  { destruct Hi. unfold ns_pre. ns_simp. repeat split; try assumption; lia. }
+  destruct (ns_dec_drain_pre c _ 0 Hwf Hp He) as (_ & E & _). exact E.
+Qed.
+
+(* every event of an open session, described at the level of messages *)
+Lemma ns_step_char c s e : ns_wf c -> ns_inv c s -> ns_open s = true ->
+  let s' := fst (ns_step c s e) in
+  let o := snd (ns_step c s e) in
+  match e with
+  | NsSubmit _ => True
+  | NsAck mid =>
+    match ns_remove mid (ns_sq s) with
+    | None => s' = s /\ o = []
+    | Some (n, q) => exists txs, o = map NsTx txs /\ ns_rel s s' q txs /\ ns_est s' = ns_est s
+    end
+  | NsRst mid =>
+    match ns_remove mid (ns_sq s) with
+    | None => s' = s /\ o = [NsNack ns_RST mid false]
+    | Some (n, q) => exists txs, o = map NsTx txs ++ [NsNack ns_RST mid true] /\
+                                 ns_rel s s' q txs /\ ns_est s' = ns_est s
+    end
+  | NsTick mid =>
+    match ns_remove mid (ns_sq s) with
+    | None => s' = s /\ o = []
+    | Some (n, q) =>
+      (o = [NsRe (ns_nmsg n)] /\ ns_rel s s' (ns_sq s) [] /\ ns_est s' = ns_est s) \/
+      (exists txs, o = map NsTx txs ++ [NsNack ns_TOO_MANY mid true] /\
+                   ns_rel s s' q txs /\ ns_est s' = ns_est s)
+    end
+  | NsSep tok =>
+    exists txs, o = map NsTx txs /\
+                ns_rel s s' (filter (fun n => negb (ns_tok (ns_nmsg n) =? tok)) (ns_sq s)) txs /\
+                ns_est s' = ns_est s
+  | NsUp => exists txs, o = map NsTx txs /\ ns_rel s s' (ns_sq s) txs /\ ns_est s' = true
+  | NsFail _ => True
+  end.
+Proof.
+  intros Hwf Hi Ho. pose proof Hwf as [Hfx Hn]. unfold ns_step. rewrite Ho. cbn [negb].
+  destruct e as [m|mid|mid|mid|tok| |r]; cbn zeta; try exact I.
+  - unfold ns_ack. destruct (ns_remove mid (ns_sq s)) as [[n q]|] eqn:Er; [|split; reflexivity].
+    destruct (ns_remove_dec_char c s mid n q Hwf Hi Ho Er) as (txs & A1 & A2).
+    destruct (ns_remove_dec_est c s mid n q Hwf Hi Ho Er) as (E1 & E2 & _).
+    destruct (ns_dec_drain c (ns_set_sq s q)) as [s1 o]. ns_simp.
+    exists txs. split; [exact A1|]. split; [|congruence].
+    unfold ns_rel in *. ns_simp. exact A2.
+  - unfold ns_rst. rewrite Hfx.
+    destruct (ns_remove mid (ns_sq s)) as [[n q]|] eqn:Er; [|split; reflexivity].
+    destruct (ns_remove_dec_char c s mid n q Hwf Hi Ho Er) as (txs & A1 & A2).
+    destruct (ns_remove_dec_est c s mid n q Hwf Hi Ho Er) as (E1 & E2 & E3). rewrite E3.
+    destruct (ns_dec_drain c (ns_set_sq s q)) as [s1 o]. ns_simp.
+    exists txs. rewrite A1. split; [reflexivity|]. split; [exact A2|congruence].
+  - unfold ns_tick. destruct (ns_remove mid (ns_sq s)) as [[n q]|] eqn:Er; [|split; reflexivity].
+    destruct (ns_remove_dec_est c s mid n q Hwf Hi Ho Er) as (E1 & E2 & E3).
+    destruct (ns_cnt n <? ns_maxrt c).
+    + left. rewrite E2, E3. cbn [negb orb andb]. destruct Hi.
+      destruct (ns_remove_some _ _ _ _ Er) as (L & _).
+      destruct (ns_act s =? 0) eqn:E0; [lia|].
+      destruct (ns_nstart c <=? ns_act s - 1) eqn:El; [lia|]. ns_simp.
+      destruct (ns_bump_props mid (ns_sq s)) as (B1 & B2 & B3).
+      split; [reflexivity|]. split; [|reflexivity]. unfold ns_rel. ns_simp.
+      rewrite B2, app_nil_r. repeat split.
+    + right.
+      destruct (ns_remove_dec_char c s mid n q Hwf Hi Ho Er) as (txs & A1 & A2). rewrite E3.
+      destruct (ns_dec_drain c (ns_set_sq s q)) as [s1 o]. ns_simp.
+      exists txs. rewrite A1. split; [reflexivity|]. split; [exact A2|congruence].
+  - unfold ns_sep.
+    set (p := fun n : ns_node => ns_tok (ns_nmsg n) =? tok).
+    pose proof (ns_filter_split p (ns_sq s)) as Hlen.
+    pose proof (ns_forallb_filter ns_ncon p (ns_sq s) (iv_con _ _ Hi)) as Hch.
+    rewrite (ns_filter_all ns_ncon _ Hch).
+    destruct (filter p (ns_sq s)) as [|h0 t0] eqn:Eh; unfold p in *; cbn beta in *.
+    + exists []. cbn [length ns_dec_n fst snd map]. split; [reflexivity|]. split; [|reflexivity].
+      unfold ns_rel. ns_simp. cbn [app filter]. rewrite app_nil_r. repeat split.
+    + assert (He : ns_est s = true).
+      { apply (iv_est _ _ Hi). intro E. rewrite E in Eh. discriminate. }
+      match goal with |- context [ns_dec_n c ?k ?st] =>
+        assert (Hpost : ns_post c st k) end.
+      { destruct Hi. unfold ns_post, ns_pre. ns_simp.
+        repeat split; try assumption; try lia.
+        + apply ns_forallb_filter. exact iv_con0.
+        + apply iv_qui0. exact He. }
+      destruct (ns_dec_n_char c _ Hwf _ Hpost) as (txs & A1 & A2).
+      destruct (ns_dec_n_pre c _ Hwf _ Hpost) as (_ & E & _).
+      exists txs. split; [exact A1|]. split; [|congruence].
+      unfold ns_rel in *. ns_simp. exact A2.
+  - destruct (ns_connected_char c s 0 Hwf (ns_inv_pre c s Hi Ho)) as (txs & A1 & A2).
+    destruct (ns_connected_pre c s 0 Hwf (ns_inv_pre c s Hi Ho)) as (_ & E & _).
+    exists txs. split; [exact A1|]. split; [exact A2|exact E].
+Qed.
